@@ -17,8 +17,9 @@ import (
 )
 
 type Clause struct {
-	Kind  string // requires, ensures, invariant, assert
-	Name  string
+	Kind   string // requires, ensures, invariant, assert
+	Params []string // for parametric lets
+	Name   string
 	Props map[string]bool // nil = all props of the function
 	Src   string
 	Expr  *Expr
@@ -46,11 +47,12 @@ type FuncSpec struct {
 	Inline   bool
 	Lets     []*Clause // let name := expr (evaluated in post-state)
 	AtCalls  map[string][]*Clause // callee short name -> assertions checked in the caller's state at each call
+	ResultIs *Clause              // definitional: the (first) result is exactly this spec term (when err == nil)
 	File     string
 }
 
 func (f *FuncSpec) HasContract() bool {
-	return f != nil && (len(f.Requires) > 0 || len(f.Ensures) > 0 || f.ModSet || f.Pure)
+	return f != nil && (len(f.Requires) > 0 || len(f.Ensures) > 0 || f.ModSet || f.Pure || f.ResultIs != nil)
 }
 
 func (c *Clause) appliesTo(prop string) bool {
@@ -64,6 +66,7 @@ type SpecDB struct {
 	lemmas      []*Lemma
 	specFns     map[string]ufSig
 	axioms      []*Clause
+	macros      map[string]*Expr
 }
 
 type Lemma struct {
@@ -132,7 +135,7 @@ func parseProps(s string) map[string]bool {
 
 // LoadSpecs reads all zz_contracts_verif.go files of the loaded packages.
 func LoadSpecs(pkgs []*packages.Package) (*SpecDB, error) {
-	db := &SpecDB{byFunc: map[string]*FuncSpec{}, forceInline: map[string]bool{}, specFns: map[string]ufSig{}}
+	db := &SpecDB{byFunc: map[string]*FuncSpec{}, forceInline: map[string]bool{}, specFns: map[string]ufSig{}, macros: map[string]*Expr{}}
 	for _, p := range pkgs {
 		for _, f := range p.GoFiles {
 			if filepath.Base(f) != "zz_contracts_verif.go" {
@@ -197,6 +200,17 @@ func (db *SpecDB) loadFile(pkgPath, file string) error {
 				}
 			}
 			db.lemmas = append(db.lemmas, curLemma)
+		case strings.HasPrefix(body, "macro "):
+			rest := strings.TrimSpace(body[6:])
+			i := strings.Index(rest, ":=")
+			if i < 0 {
+				return fmt.Errorf("%s: bad macro", where)
+			}
+			ex, err := ParseExpr(strings.TrimSpace(rest[i+2:]))
+			if err != nil {
+				return fmt.Errorf("%s: %v", where, err)
+			}
+			db.macros[strings.TrimSpace(rest[:i])] = ex
 		case strings.HasPrefix(body, "specfn "):
 			// specfn name(Sort, Sort): Sort
 			rest := strings.TrimSpace(body[7:])
@@ -275,6 +289,12 @@ func (db *SpecDB) loadFile(pkgPath, file string) error {
 				nm = fmt.Sprintf("inv%d", len(ls.Invariants)+1)
 			}
 			ls.Invariants = append(ls.Invariants, &Clause{Kind: "invariant", Name: nm, Props: parseProps(m[2]), Src: m[4], Expr: ex, Line: where})
+		case strings.HasPrefix(body, "result-is "):
+			ex, err := ParseExpr(strings.TrimSpace(body[10:]))
+			if err != nil {
+				return fmt.Errorf("%s: %v", where, err)
+			}
+			cur.ResultIs = &Clause{Kind: "defines", Name: "result-is", Src: body[10:], Expr: ex, Line: where}
 		case strings.HasPrefix(body, "at call "):
 			rest := strings.TrimSpace(body[8:])
 			i := strings.Index(rest, " assert")
@@ -308,7 +328,15 @@ func (db *SpecDB) loadFile(pkgPath, file string) error {
 			if err != nil {
 				return fmt.Errorf("%s: %v", where, err)
 			}
-			cur.Lets = append(cur.Lets, &Clause{Kind: "let", Name: strings.TrimSpace(rest[:i]), Src: rest, Expr: ex, Line: where})
+			lname := strings.TrimSpace(rest[:i])
+			var params []string
+			if k := strings.Index(lname, "("); k >= 0 {
+				for _, p := range strings.Split(strings.TrimSuffix(lname[k+1:], ")"), ",") {
+					params = append(params, strings.TrimSpace(p))
+				}
+				lname = lname[:k]
+			}
+			cur.Lets = append(cur.Lets, &Clause{Kind: "let", Name: lname, Params: params, Src: rest, Expr: ex, Line: where})
 		default:
 			m := clauseRe.FindStringSubmatch(body)
 			if m == nil {
@@ -583,6 +611,9 @@ func (p *parser) parseBin(min int) (*Expr, error) {
 }
 
 func (p *parser) parseUn() (*Expr, error) {
+	if t := p.peek(); t.k == "id" && (t.v == "forall" || t.v == "exists") {
+		return p.parseImpl()
+	}
 	if p.isOp("!") || p.isOp("-") {
 		op := p.next().v
 		a, err := p.parseUn()
@@ -637,7 +668,7 @@ func (p *parser) parsePost() (*Expr, error) {
 		case p.isOp("["):
 			p.next()
 			var args []*Expr
-			for {
+			for !p.isOp("]") {
 				a, err := p.parseImpl()
 				if err != nil {
 					return nil, err
